@@ -1303,7 +1303,9 @@ Proof. exact LoadsMultiExample.example_loads_multi_table. Qed.
    is a machine integer and the document's trailer has no DecodeParms (the loader is load_ext with Stream::decompress = decompress_ref),
    and the stream dictionary (Type, Size, W, Index, the document's trailer entries, Prev, Filter / DecodeParms, Length) is spelled legally in the style of
    the stream object ([spell_wf], nesting <= MAX_DEPTH); the document's trailer holds none of Size / Prev / Encrypt / XRefStm /
-   Index / Filter; object numbers incl. the cross-reference streams' fit u32.
+   Index / Filter; object numbers incl. the cross-reference streams' fit u32; for the LAST part
+   [parts_ok] also asks [sx_win]: its startxref block keeps "startxref" within Reader::get_xref_start's 25-byte window at the offset it
+   actually carries (as [sx_window] in C02_domain).
    --------------------------------------------------------------------------------------------- *)
 Definition C02_multi_domain (st : fstyle) (parts : list mpart) (a : adoc) (file : bytes) : Prop :=
   s_ostms st = [] /\
@@ -1317,10 +1319,7 @@ Definition C02_multi_domain (st : fstyle) (parts : list mpart) (a : adoc) (file 
   match parts with
   | p :: _ => 25 < LoadsMultiMixed.p_xpos st a p (blen (RefWriter.header st (a_version a)))
   | [] => True
-  end /\
-  (forall lastp xs, last_part parts = Some lastp -> xs <= blen file ->
-     (9 + length (LoadsTableProofs.sx_mid (s_sx_eol1 (with_part st lastp true)) (s_sx_sp1 (with_part st lastp true)) xs
-                    (s_sx_sp2 (with_part st lastp true)) (s_sx_eol2 (with_part st lastp true))) <= 25)%nat).
+  end.
 
 Theorem C02_loads_multi_mixed :
   forall (st : fstyle) (parts : list mpart) (a : adoc) (file : bytes),
